@@ -49,7 +49,17 @@ def gen_exact(rng):
             attempt = rng.randint(1, 40 if k == "equal" else 20)          # exact regime
         else:
             attempt = rng.choice([200, 512, 1000, 1023, 1024, 1025, 1750, 1751, 1752, 2000, 5000, 20000])   # saturated regime
-        return {"kind": k, "base": fr(base), "max": fr(mx), "attempt": attempt, "r": fr(draw(rng))}
+        # the previous delay handed to the strategy (it may come from another class's strategy or a Retry-After pause): no influence
+        prev = rng.choice([None, None, Fraction(0), mx, mx * Fraction(3, 4), mx * 2, base, dy(rng)])
+        return {"kind": k, "base": fr(base), "max": fr(mx), "attempt": attempt, "r": fr(draw(rng)), "prev": fr(prev)}
+    if k == "adaptive" and rng.random() < 0.04:
+        # a burst of more than a thousand outcomes inside one window, then silence for longer than the window
+        window, now = Fraction(4), Fraction(40)
+        n = rng.choice([1025, 1100, 2049])
+        hist = [[fr(Fraction(10) + Fraction(i, 1024)), rng.random() < 0.3] for i in range(n)]
+        minm = Fraction(rng.choice([1, 2]))
+        return {"kind": k, "window": fr(window), "ts": fr(Fraction(1, 2)), "minm": fr(minm), "maxm": fr(minm + 4), "hist": hist,
+                "now": fr(now), "fallback": fr(dy(rng))}      # (inside the window the rate would not be an exact float)
     if k == "adaptive":
         window = Fraction(rng.choice([1, 4, 8]))
         total = rng.choice([0, 1, 2, 4, 8])      # 0: everything recorded has left the window (or nothing was recorded)
